@@ -105,7 +105,11 @@ func TestRegFuzz(t *testing.T) {
 	if s := os.Getenv("FUZZ_SECS"); s != "" {
 		fmt.Sscan(s, &secs)
 	}
-	r := rand.New(rand.NewSource(7))
+	seed := int64(7)
+	if s := os.Getenv("FUZZ_SEED"); s != "" {
+		fmt.Sscan(s, &seed)
+	}
+	r := rand.New(rand.NewSource(seed))
 	type div struct{ src, detail string }
 	classes := map[string]div{}
 	count := map[string]int{}
